@@ -14,6 +14,20 @@ _known = None
 def refine(site, o):
     global _known
     mod = site.split("@")[-1].split(".")[0]
+    if site == "AssertionError@tensor.address_for_coordinate":
+        # a STRIDED_SLICE begin value below -dim (the reference clamps it, Vela reads from a negative coordinate)
+        import gen_ssmask
+
+        if "begin" in gen_ssmask.out_of_range(((o.get("desc") or {}).get("desc")) or []):
+            return site + ":strided-slice-begin-below-minus-dim"
+    if site in ("IndexError@tflite_graph_optimiser.rewrite_split_ops", "AssertionError@tensor.address_for_coordinate",
+                "AssertionError@high_level_command_stream.__init__"):
+        # rank sweep (gen_ranksweep.py): UNPACK with a negative axis (patch C13-50), SLICE with a size of -1 (patch C13-51)
+        desc = [str(x) for x in (((o.get("desc") or {}).get("desc")) or [])]
+        if any(re.match(r"unpack rank=\d+ axis=-", x) for x in desc):
+            return site + ":unpack-negative-axis"
+        if any(re.match(r"slice rank=\d+ begin=\[.*\] size=\[[^\]]*-1", x) for x in desc):
+            return site + ":slice-size-minus-one"
     if mod not in UTILITY_MODULES:
         return site
     if _known is None:
